@@ -18,11 +18,16 @@ first = open(os.path.join(sd, "demo_test.go")).read().split("\n")[0:5]
 for l in first:
     if "place in:" in l:
         place = l.split("place in:")[1].strip()
-place = place.strip().rstrip("/")
+place = place.strip().split()[0].rstrip("/") if place.strip() else "."
 if place.startswith(wt): place = place[len(wt)+1:]
-demo_dst = os.path.join(wt, place, "zz_seed_demo_test.go")
+if place in ("", "./", "(repository", "repo", "root"): place = "."
+place = place.lstrip("./") or "."
+demo_dst = os.path.join(wt, place, "zz_seed_demo_test.go") if place != "." else os.path.join(wt, "zz_seed_demo_test.go")
 shutil.copy(os.path.join(sd, "demo_test.go"), demo_dst)
-run = "go test ./%s/ -count=1 2>&1 | tail -15" % place
+import re
+names = re.findall(r"^func (Test\w+)\(", open(os.path.join(sd, "demo_test.go")).read(), re.M)
+pkgarg = "." if place == "." else "./%s/" % place
+run = "go test %s -count=1 -run '^(%s)$' 2>&1 | tail -15" % (pkgarg, "|".join(names))
 try:
     r0 = sh(run)
     res["demo_unpatched_pass"] = ("ok " in r0.stdout and "FAIL" not in r0.stdout)
